@@ -122,6 +122,12 @@ impl QueryEngine {
         operation().await
     }
 
+    /// Whether `metrics` is still bound to the empty placeholder table (built-in default
+    /// schema) because no chunk set has been registered yet.
+    pub fn metrics_table_is_placeholder(&self) -> bool {
+        self.registered_metrics_paths.read().is_empty()
+    }
+
     /// Register the logical `metrics` table over a set of chunk paths.
     ///
     /// This resolves the model mismatch between SQL queries (`FROM metrics`) and
